@@ -286,7 +286,8 @@ def r3_rows(ctx) -> None:
     need(ctx, R, f"{CFGQ}.add_successor", "Cfg.add_successor: block inputs = predecessor's successor row",
          ["L_b = self.add_block(*self._nth_outputs(L_pred))", "self.branch(L_pred, L_b)"])
     br = [p for p in ctx.paths(f"{CFGQ}.branch")]
-    ok = bool(br) and all((p.kind == "return" and "self.branch_exit(" in p.value_text()) or p.find_effect("self.hugr.add_link(E_src, L_dst.inp(0))") for p in br)
+    ok = bool(br) and all((p.kind == "return" and "self.branch_exit(" in p.value_text()) or p.find_effect("self.branch_exit(E_s)")
+                          or p.find_effect("self.hugr.add_link(E_src, L_dst.inp(0))") for p in br)
     f_ = ctx.locate(f"{CFGQ}.branch")
     ctx.check(ok, R, "Cfg.branch: control edges enter a block at port 0", f_[1].path, f_[0].lineno, "", f_[0])
     # op-side setters
